@@ -113,12 +113,85 @@ def sample_flagsets(rng, allf, n_random, full=False):
     if full:
         return [list(c) for r in range(1, len(allf) + 1) for c in itertools.combinations(allf, r)]
     sets = [[f] for f in allf]
+    # structured combinations: the class defaults plus one non-default flag at a time
+    if "optimize_with_safe_sequences_fix_via_bounds" in allf:
+        dflt = ["optimize_with_safe_sequences", "optimize_with_safe_sequences_allow_geq_constraints",
+                "optimize_with_safe_sequences_fix_zero_edges"]
+        sets += [dflt, dflt + ["optimize_with_safe_sequences_fix_via_bounds"],
+                 dflt[:2] + ["optimize_with_safe_sequences_fix_via_bounds"]]
+    else:
+        dflt = [f for f in ("optimize_with_safe_paths", "optimize_with_safe_zero_edges",
+                            "optimize_with_subpath_constraints_as_safe_sequences", "optimize_with_greedy",
+                            "optimize_with_flow_safe_paths") if f in allf]
+        sets += [dflt, [f for f in dflt if f != "optimize_with_greedy"]]
     for _ in range(n_random):
         sets.append(rng.sample(allf, rng.randint(2, min(4, len(allf)))))
     return sets
 
 
+def loop_twice_instance(rng, cls):
+    """cyclic input whose only decomposition is one walk running twice through an SCC edge (s a b c a b t): the safe
+    sequence carries multiplicity 2 on (a,b), so lower bounds queued through variable bounds differ between edges;
+    node/edge insertion orders are shuffled so that column order and queue order disagree"""
+    w = rng.choice([1, 2, 3])
+    edges = [("s", "a"), ("a", "b"), ("b", "c"), ("c", "a"), ("b", "t")]
+    fl = {("s", "a"): w, ("a", "b"): 2 * w, ("b", "c"): w, ("c", "a"): w, ("b", "t"): w}
+    if rng.random() < 0.5:       # a second, disjoint route
+        edges += [("s", "d"), ("d", "t")]; fl[("s", "d")] = fl[("d", "t")] = rng.choice([1, 2])
+    nodes = sorted({x for e in edges for x in e}); rng.shuffle(nodes); rng.shuffle(edges)
+    inst = {"cls": cls, "nodes": nodes, "edges": [list(e) for e in edges], "origin": "edge", "weight_type": "int",
+            "constraints": [], "coverage": "1", "ignore": [], "starts": [], "ends": [], "options": {},
+            "flow": [[u, v, str(fl[(u, v)])] for (u, v) in edges]}
+    if cls in models.HAS_K:
+        inst["k"] = 1 + (1 if ("s", "d") in fl else 0)
+    if cls in models.COVER:
+        inst.pop("flow")
+    return inst
+
+
+def crossing_instance(rng, cls):
+    """two flows crossing at a node: greedy pairs the heavy in-edge with the heavy out-edge, a constraint asks for the
+    heavy in-edge followed by the light out-edge with a fractional coverage threshold (2 edges at 3/4 -> 1.5)"""
+    x = rng.choice([5, 6, 8]); y = rng.choice([2, 3])
+    edges = [("a", "v"), ("b", "v"), ("v", "c"), ("v", "d")]
+    fl = {("a", "v"): x, ("b", "v"): y, ("v", "c"): x, ("v", "d"): y}
+    if rng.random() < 0.5:
+        edges = [("s", "a"), ("s", "b")] + edges + [("c", "t"), ("d", "t")]
+        fl.update({("s", "a"): x, ("s", "b"): y, ("c", "t"): x, ("d", "t"): y})
+    nodes = sorted({n for e in edges for n in e}); rng.shuffle(nodes); rng.shuffle(edges)
+    inst = {"cls": cls, "nodes": nodes, "edges": [list(e) for e in edges], "origin": "edge", "weight_type": "int",
+            "constraints": [[["a", "v"], ["v", "d"]]], "coverage": rng.choice(["3/4", "2/3", "3/5"]), "ignore": [],
+            "starts": [], "ends": [], "options": {}, "flow": [[u, v, str(fl[(u, v)])] for (u, v) in edges]}
+    if cls in models.HAS_K:
+        inst["k"] = rng.choice([2, 3])
+    return inst
+
+
+def rounding_instance(rng, cls):
+    """DAG flow decomposition with subpath constraints whose length*coverage is not an integer (2 edges at 3/4, 3 edges
+    at 1/2, ...): the greedy shortcut and the MILP must apply the same threshold"""
+    inst = models.instance(rng, cls, features=False)
+    nodes, edges = inst["nodes"], [tuple(e) for e in inst["edges"]]
+    cons = []
+    for _ in range(rng.randint(1, 2)):
+        p = gen.random_path(rng, nodes, edges)
+        es = list(zip(p[:-1], p[1:]))
+        if len(es) >= 2:
+            i = rng.randrange(len(es) - 1)
+            cons.append([list(e) for e in es[i:i + rng.choice([2, 3])]])
+    if cons:
+        inst["constraints"] = cons
+        inst["coverage"] = rng.choice(["3/4", "1/2", "3/5", "2/3"])
+    return inst
+
+
 def gen_inst(rng, cls):
+    if models.is_cyc(cls) and rng.random() < 0.5:
+        return loop_twice_instance(rng, cls)
+    if cls in ("kFlowDecomp", "MinFlowDecomp") and rng.random() < 0.4:
+        inst = rounding_instance(rng, cls)
+        inst["starts"], inst["ends"], inst["ignore"] = [], [], []
+        return inst
     inst = models.instance(rng, cls, features=True)
     inst["starts"], inst["ends"] = [], []          # keep the input inside every class's documented domain
     if cls in ("MinFlowDecomp", "MinFlowDecompCycles", "kFlowDecomp", "kFlowDecompCycles"):
@@ -129,7 +202,7 @@ def gen_inst(rng, cls):
 def run(ctx):
     rng = ctx.rng
     k2.run_k2(ctx, K2_ADAPTERS, ctx.n(30, 400))
-    per = ctx.n(2, 12)
+    per = ctx.n(4, 16)
     first = True
     for cls in models.ALL_CLASSES:
         for it in range(per):
@@ -140,6 +213,18 @@ def run(ctx):
             if first:
                 ctx.rep.sample({"class": cls, "instance": inst, "flag_sets": fsets[:6], "baseline": list(ref)})
                 first = False
+    rounding_cases(ctx)
+
+
+def rounding_cases(ctx, suite="K5.greedy_vs_milp_thresholds"):
+    """the greedy shortcut and the MILP must agree on fractional coverage thresholds"""
+    rng = ctx.rng
+    for cls in ("kFlowDecomp", "MinFlowDecomp"):
+        for it in range(ctx.n(12, 80)):
+            inst = crossing_instance(rng, cls) if it % 3 == 0 else rounding_instance(rng, cls)
+            inst["starts"], inst["ends"], inst["ignore"] = [], [], []
+            if inst.get("constraints"):
+                metamorphic(ctx, inst, [["optimize_with_greedy"]], suite=suite)
 
 
 def finding_case(ctx, inp):
